@@ -37,6 +37,9 @@ def texts():
             yield 'space-run', tpl.replace('@', pad)
             if k_ >= 16: yield 'space-run-ff', tpl.replace('@', '\n' + pad + '\f\n' + pad); yield 'space-run-vt', tpl.replace('@', '\n\n' + pad + '\v' + pad + '\n')
             yield 'space-run-nl', tpl.replace('@', '\n' + pad)
+            # twelfth round: the same runs with a comment inside the gap (the readers that look for a blank line around a comment see the run on both sides of it)
+            yield 'space-run-nl-c', tpl.replace('@', '\n' + pad + '# c\n' + pad); yield 'space-run-c', tpl.replace('@', pad + '/* c */' + pad)
+            if k_ >= 16: yield 'space-run-tab-c', tpl.replace('@', '\n' + '\t' * k_ + '# c\n' + '\t' * k_)
     for d_ in (1, 4, 8, 10, 12, 14, 16, 20, 24, 32):
         for inner in ['{\n@  x,\n@  ...\n@}:\n@x', '{\n@  x ? 1,\n@  y,\n@  ...\n@}@args:\n@x', '[\n@  1\n@  2\n@]', 'let\n@  a = 1;\n@in\n@a', 'f {\n@  a = 1;\n@}', 'if a then\n@  b\n@else\n@  c']:
             ind = '  ' * d_
